@@ -290,9 +290,114 @@ func rootsOf(stages [][]*c03task, idx []int) []*exec.Task {
 	return roots
 }
 
+// c03wedged tells that an earlier case of this process left the harness wedged (see runC03case).
+var c03wedged int32
+
+// runC03case runs the history in a goroutine of its own and watches it from outside. The adversary
+// records and applies every state change under the monitor's lock (see setState), so an evaluator
+// that keeps a task's lock for ever blocks the adversary inside exec.(*Task).Set with the monitor's
+// lock held, and with it the loop that drives the history and would look for stalls. The watcher
+// needs no lock: it proves that situation from two goroutine profiles (every goroutine of the
+// evaluation and of the adversary parked, one of them inside setState on a task's lock, same
+// goroutines both times, event counter unchanged) and reports it; the wedged goroutines are left
+// behind and the process runs no further cases.
 func runC03case(t *vf.T, c c03case) {
+	if atomic.LoadInt32(&c03wedged) != 0 {
+		t.Inconclusive("an earlier history left the adversary blocked on a task's lock; no further histories are run in this process")
+		return
+	}
+	var cur atomic.Value
+	done := make(chan struct{})
+	var pv any
+	var pstack []byte
+	go func() {
+		defer close(done)
+		defer func() {
+			if e := recover(); e != nil {
+				pv, pstack = e, stackNow()
+			}
+		}()
+		runC03body(t, c, &cur)
+	}()
+	tick := time.NewTicker(100 * time.Millisecond)
+	defer tick.Stop()
+	for {
+		select {
+		case <-done:
+			if pv != nil {
+				site := vf.PanicSite(pstack)
+				t.Violate("panic:"+site, fmt.Sprintf("panic: %v at %s", pv, site))
+			}
+			return
+		case <-tick.C:
+			x, _ := cur.Load().(*c03exec)
+			if x == nil {
+				continue
+			}
+			if c03wedgeProof(x) {
+				atomic.StoreInt32(&c03wedged, 1)
+				t.Violate("stall outcome-blocked-on-task-lock", "the executor cannot record the outcome of a task it was handed: its Set/Error call is blocked on the task's lock, which no goroutine will release (every goroutine of the evaluation is parked in two profiles, no event happens); the task can never complete and any evaluation that shares it waits for ever | "+c03describe(c))
+				return
+			}
+		}
+	}
+}
+
+// c03wedgeProof: two goroutine profiles 50 ms apart with the same goroutines of the evaluation and of
+// the adversary, all parked, one of them in setState inside exec.(*Task) on a mutex, and no event.
+func c03wedgeProof(x *c03exec) bool {
+	sample := func() (sig string, wedged, ok bool) {
+		buf := make([]byte, 4<<20)
+		n := runtime.Stack(buf, true)
+		var ids []string
+		ok = true
+		for _, g := range bytes.Split(buf[:n], []byte("\n\n")) {
+			s := string(g)
+			if !strings.Contains(s, "(*c03exec)") && !strings.Contains(s, "bigslice/exec.") && !strings.Contains(s, "props.runC03body") {
+				continue
+			}
+			head := s
+			if i := strings.IndexByte(s, '\n'); i >= 0 {
+				head = s[:i]
+			}
+			state := ""
+			if i := strings.IndexByte(head, '['); i >= 0 {
+				state = strings.TrimSuffix(head[i+1:], "]:")
+				if j := strings.IndexByte(state, ','); j >= 0 {
+					state = state[:j]
+				}
+			}
+			parked := false
+			for _, p := range c03parkedStates {
+				if strings.HasPrefix(state, p) {
+					parked = true
+				}
+			}
+			if !parked {
+				ok = false
+			}
+			if strings.Contains(s, "(*c03exec).setState") && strings.Contains(s, "bigslice/exec.(*Task)") && strings.HasPrefix(state, "sync.Mutex.Lock") {
+				wedged = true
+			}
+			ids = append(ids, strings.Fields(head)[1]+state)
+		}
+		sort.Strings(ids)
+		return strings.Join(ids, ";"), wedged, ok
+	}
+	e0 := atomic.LoadInt64(&x.events)
+	s0, w0, ok0 := sample()
+	if !w0 || !ok0 {
+		return false
+	}
+	time.Sleep(50 * time.Millisecond)
+	s1, w1, ok1 := sample()
+	return w1 && ok1 && s0 == s1 && atomic.LoadInt64(&x.events) == e0
+}
+
+func runC03body(t *vf.T, c c03case, cur *atomic.Value) {
 	quietLogs()
 	x, stages := buildC03(c)
+	cur.Store(x)
 	x.start = x.tick()
 	// initial states, as arise when results of earlier invocations are reused
 	nonInit := false
@@ -374,6 +479,7 @@ func runC03case(t *vf.T, c c03case) {
 	giveUp := false
 	step := 0
 	stalled := false
+	stallKind := ""
 	for !allDone() {
 		settle()
 		if allDone() {
@@ -397,9 +503,11 @@ func runC03case(t *vf.T, c c03case) {
 				x.mu.Unlock()
 				progressed = progressed || allDone()
 			}
-			if !progressed && c03stalled(x) {
-				stalled = true
-				break
+			if !progressed {
+				if k := c03stallKind(x, true); k != "" {
+					stalled, stallKind = true, k
+					break
+				}
 			}
 			continue
 		}
@@ -475,8 +583,17 @@ func runC03case(t *vf.T, c c03case) {
 	x.mu.Unlock()
 	// let the released hand-offs finish so that nothing writes the harness state while the verdicts
 	// below read it
+	lockHeld := false
 	for i := 0; i < 20000 && atomic.LoadInt64(&x.active) > 0; i++ {
 		time.Sleep(50 * time.Microsecond)
+		if i%2000 == 1999 && !stalled {
+			// the released hand-offs record their outcomes on their tasks; one that cannot, because an
+			// evaluation that has ended still holds the task's lock, never will
+			if c03stallKind(x, false) != "" {
+				lockHeld = true
+				break
+			}
+		}
 	}
 	sigs := map[string]bool{}
 	for i, w := range x.viol {
@@ -485,8 +602,16 @@ func runC03case(t *vf.T, c c03case) {
 			t.Violate(x.viosig[i], w+" | "+c03describe(c))
 		}
 	}
+	if stalled && stallKind == "outcome-blocked-on-task-lock" {
+		t.Violate("stall outcome-blocked-on-task-lock", "the evaluation has not returned and the executor cannot record the outcome of a task: its Set/Error call is blocked on the task's lock, every goroutine of the evaluation is parked in two profiles and no event happens | "+c03describe(c))
+		return
+	}
 	if stalled {
 		t.Violate("stall", "the evaluation has not returned, no task is in the executor's hands and no event happens: two goroutine profiles show the evaluator parked | "+c03describe(c))
+		return
+	}
+	if lockHeld {
+		t.Violate("task-lock-held-after-evaluation-ended", "every evaluation has returned, but the executor cannot record the outcome of a task it was handed: its Set/Error call stays blocked on the task's lock (two identical goroutine profiles, nothing runnable) - the task can never complete and any later evaluation that shares it waits for ever | "+c03describe(c))
 		return
 	}
 	// final verdicts per evaluation
@@ -565,28 +690,84 @@ func runC03case(t *vf.T, c c03case) {
 	}
 }
 
-// c03stalled proves a stall: the event counter does not move across two goroutine profiles in
-// which some goroutine sits in exec.Eval's select and none is inside the adversary's Run.
-func c03stalled(x *c03exec) bool {
-	sample := func() (evalParked bool, inRun bool) {
-		buf := make([]byte, 1<<20)
+// c03stalled proves a stall: across two goroutine profiles the event counter does not move and the
+// same goroutines of the evaluation (everything with a frame of bigslice/exec, and the adversary's Run
+// calls) are parked -- in a select, on a channel, a mutex or a condition -- with at least one of them
+// inside exec.Eval, and none running or runnable. A Run call of the adversary counts as parked only
+// when it is blocked inside exec.(*Task) (recording an outcome on a task whose lock is never
+// released); one that waits for the adversary itself is work in the harness's hands, not a stall.
+// The harness (the only other actor) has nothing outstanding when this is called, so no event can
+// leave that state. Returns the kind of stall ("" if none is proven).
+func c03stalled(x *c03exec) bool { return c03stallKind(x, true) != "" }
+
+var c03parkedStates = []string{"select", "chan receive", "chan send", "sync.Mutex.Lock", "sync.Cond.Wait", "semacquire", "sync.WaitGroup.Wait", "sync.RWMutex"}
+
+func c03stallKind(x *c03exec, needEval bool) string {
+	sample := func() (sig string, evalParked, runBlocked, ok bool) {
+		buf := make([]byte, 4<<20)
 		n := runtime.Stack(buf, true)
+		var ids []string
+		ok = true
 		for _, g := range bytes.Split(buf[:n], []byte("\n\n")) {
 			s := string(g)
-			if strings.Contains(s, "bigslice/exec.Eval(") && strings.Contains(s, "[select") {
+			inRun := strings.Contains(s, "(*c03exec).Run")
+			if !inRun && !strings.Contains(s, "bigslice/exec.") {
+				continue
+			}
+			if strings.Contains(s, "props.c03stallKind") {
+				continue // the sampling goroutine itself
+			}
+			head := s
+			if i := strings.IndexByte(s, '\n'); i >= 0 {
+				head = s[:i]
+			}
+			state := ""
+			if i := strings.IndexByte(head, '['); i >= 0 {
+				state = strings.TrimSuffix(head[i+1:], "]:")
+				if j := strings.IndexByte(state, ','); j >= 0 {
+					state = state[:j]
+				}
+			}
+			parked := false
+			for _, p := range c03parkedStates {
+				if strings.HasPrefix(state, p) {
+					parked = true
+				}
+			}
+			if !parked {
+				ok = false
+			}
+			if inRun {
+				if !strings.Contains(s, "bigslice/exec.(*Task)") {
+					ok = false // waiting for the adversary
+				}
+				runBlocked = true
+			}
+			if strings.Contains(s, "bigslice/exec.Eval(") && strings.HasPrefix(state, "select") {
 				evalParked = true
 			}
-			if strings.Contains(s, "(*c03exec).Run") {
-				inRun = true
-			}
+			ids = append(ids, strings.Fields(head)[1]+state)
 		}
-		return
+		sort.Strings(ids)
+		return strings.Join(ids, ";"), evalParked, runBlocked, ok
 	}
 	e0 := atomic.LoadInt64(&x.events)
-	p0, r0 := sample()
+	s0, p0, r0, ok0 := sample()
 	time.Sleep(30 * time.Millisecond)
-	p1, r1 := sample()
-	return p0 && p1 && !r0 && !r1 && atomic.LoadInt64(&x.events) == e0
+	s1, p1, r1, ok1 := sample()
+	if !ok0 || !ok1 || s0 != s1 || s0 == "" || atomic.LoadInt64(&x.events) != e0 {
+		return ""
+	}
+	if needEval && !(p0 && p1) {
+		return ""
+	}
+	if r0 && r1 {
+		return "outcome-blocked-on-task-lock"
+	}
+	if !needEval {
+		return ""
+	}
+	return "parked"
 }
 
 func c03shape(c c03case) string {
